@@ -188,11 +188,20 @@ class VariablesCollector(ValidationVisitor):
             )
 
     def _flatten_fragments(self):
-        for parent, children in self._fragment_fragments.items():
-            for child in deduplicate(children):
-                for op in self._op_fragments.keys():
-                    if parent in self._op_fragments[op]:
-                        self._op_fragments[op].append(child)
+        # Transitive closure of the fragments spread by each operation,
+        # whatever order the fragments were defined in.
+        for fragments in self._op_fragments.values():
+            seen = set(fragments)
+            queue = list(fragments)
+            while queue:
+                parent = queue.pop(0)
+                if parent not in self._fragment_fragments:
+                    continue
+                for child in deduplicate(self._fragment_fragments[parent]):
+                    if child not in seen:
+                        seen.add(child)
+                        fragments.append(child)
+                        queue.append(child)
 
     def leave_document(self, _):
         self._flatten_fragments()
